@@ -91,8 +91,9 @@ type Case struct {
 type Emitter struct {
 	w      *bufio.Writer
 	cur    *Case
-	events int
-	calls  int64
+	events  int
+	calls   int64
+	scanned int64
 }
 
 // Emit writes one trace line: the case id, step number, event kind and the fields of ev.
@@ -113,6 +114,9 @@ func (em *Emitter) Emit(kind string, ev J) {
 
 // Calls adds to the count of judged library calls.
 func (em *Emitter) Calls(n int) { em.calls += int64(n) }
+
+// Scanned adds to the count of library calls made by an input selector (not judged by TLC).
+func (em *Emitter) Scanned(n int64) { em.scanned += n }
 
 func fatalf(f string, a ...interface{}) {
 	fmt.Fprintf(os.Stderr, "drv: "+f+"\n", a...)
@@ -203,6 +207,7 @@ type meta struct {
 	Cases       int               `json:"cases"`
 	Events      int               `json:"events"`
 	Calls       int64             `json:"calls"`
+	Scanned     int64             `json:"scanned"`
 	Distinct    int               `json:"distinct_nontrivial"`
 	Kinds       map[string]int    `json:"kinds"`
 	Samples     []json.RawMessage `json:"samples"`
@@ -340,6 +345,7 @@ func record(p *Prop, prop string, seed int64, tier, dir string, shard, of int, c
 	cf.Close()
 	m.Events = em.events
 	m.Calls = em.calls
+	m.Scanned = em.scanned
 	m.Distinct = len(m.Digests)
 	sort.Strings(m.Digests)
 	mb, _ := json.Marshal(m)
